@@ -346,7 +346,7 @@ def run_rest(ctx):
     # in 1500 bodies, so several thousand are tried, in parallel processes
     from concurrent.futures import ThreadPoolExecutor
     nproc, per = 16, (300 if ctx.tier == "quick" else 4000)
-    gops = [f"z.gzcompressrand {ctx.seed * 100 + k} {per} 60000 130000" for k in range(nproc)]
+    gops = [f"z.gzcompressrand {ctx.seed * 100 + k} {per} 60000 200000" for k in range(nproc)]
     with ThreadPoolExecutor(max_workers=nproc) as ex:
         gres = list(ex.map(lambda o: pvlib.run_lines(impl, [o], env=pvlib.san_env(), timeout=3000, per_line_timeout=3000, stall=3000)[0], gops))
     ctx.count("z.gzcompressrand", len(gops), gops)
